@@ -156,4 +156,27 @@ PLANS = {
   'bound': {'quick': 'two-step histories with a rotating 1/6 subset of second calls', 'thorough': 'all two-step histories'},
   'deadline': {'quick': 200, 'thorough': 1500}, 'assumptions': A_COMMON + ["the self-test bodies are replaced by shims (what is verified is the latch and the gates, not the known-answer tests themselves)"],
  },
+ 'C17': {
+  'level': 'model_checking',
+  'steps': [{'engine': 'e4_api', 'variant': 'VF', 'args': ['--mode=latch'], 'shards': 21}],
+  'eval_stats': ['schedules'], 'distinct_key': 'configs', 'state_stats': ['states'], 'transition_stats': ['transitions'], 'trace_stats': ['schedules'],
+  'rule': "stateless exploration of real pthreads through the real lock-free latch (asm_check_self_tests_status / isal_self_tests / asm_set_self_tests_status): the page holding self_test_status (and the sha256 manager-init dispatch slot) is PROT_NONE, so every load, lock cmpxchg and store of the status word faults and becomes a scheduling point discovered from the machine code (single instruction let through under the trap flag); the running self-tests (shims) are scheduling points too; exactly one thread runs at a time; depth-first over choice sequences with a visited set of canonical states (per-thread history of (rip, value observed), status word, shim counters); spinning threads (same load, same registers, no intervening store) are disabled until somebody stores; threads N in {1,2,3} with unbounded preemptions (exhaustive), N=4 preemption-bounded; bodies {isal_self_tests x2} and one {approved public entry, isal_self_tests}; outcomes {pass, AES fails, SHA fails (calibrated -1)}; oracle on every complete execution: self-tests entered exactly once, no call returns and no primitive starts before they finished, every return equals the verdict, no deadlock / livelock; every failing schedule is replayed before it is reported",
+  'bound': {'quick': 'N<=3 exhaustive; N=4 with <=2 preemptions', 'thorough': 'N<=3 exhaustive; N=4 with <=3 preemptions'},
+  'deadline': {'quick': 300, 'thorough': 2400},
+  'assumptions': A_COMMON + ["interleavings are sequentially consistent at instruction granularity; x86-TSO store buffering is not explored (the protocol publishes with a single plain store after a locked RMW, for which TSO and SC allow the same outcomes)", "self-test bodies are shims (entry/exit are events); what is explored is the latch protocol"],
+ },
+ 'C18': {
+  'level': 'model_checking',
+  'steps': [dict(e3('gcm'), args=['--what=gcm', '--wtrap']), dict(e3('xts', 8, 16), args=['--what=xts', '--wtrap']), dict(e3('cbc', 4, 8), args=['--what=cbc', '--wtrap']), dict(e3('keyexp', 2, 4), args=['--what=keyexp', '--wtrap']),
+            dict(e2('mh1', 8, 16), args=['--what=mh1', '--wtrap']), dict(e2('mh256', 8, 16), args=['--what=mh256', '--wtrap']), dict(e2('mur', 8, 16), args=['--what=mur', '--wtrap']),
+            dict(e2('roll', 16, 16), args=['--what=roll', '--wtrap']), dict(e2('gcms', 16, 16), args=['--what=gcms', '--wtrap']),
+            e1('explore', 112, ['--wtrap', '--d4=1', '--d8=1', '--d16=1']), e1('explore', 112, ['--wtrap', '--entry=public', '--d4=1']),
+            {'engine': 'e4_api', 'variant': 'V', 'args': ['--mode=lattice', '--wtrap'], 'shards': 8},
+            {'engine': 'e4_api', 'variant': 'V', 'args': ['--mode=race'], 'shards': 16}],
+  'eval_stats': ['schedules', 'library_calls'], 'distinct_key': 'raced_entry_points', 'state_stats': ['states'], 'transition_stats': ['transitions'], 'trace_stats': ['schedules'],
+  'rule': "(a) inventory by execution: all library statics (sections .data/.bss of every object, isolated by ld -r + section renaming into page-aligned isal_data/isal_bss) are mapped read-only while the complete operation alphabets of E1, E2, E3 and E4 run on every family; every store is trapped, attributed to a symbol and to library or harness code; oracle: symbols written by library code subset of {*_dispatched, self_test_status}. (b) first-call races: for each public entry point that goes through a dispatch slot, 2 and 3 (thorough: 4) threads make their first call simultaneously on their own objects; the dispatch slots are PROT_NONE so every load (jmp [slot]), store (resolver) and reload is a scheduling point; all interleavings are explored (visited-state pruning, unbounded preemptions); oracle: every thread's outputs and return value equal the sequential ones, each slot ends at the sequential binding, every value ever read from a slot is the resolver stub or the final target",
+  'bound': {'quick': '(a) quick grids; (b) 2 and 3 threads, all interleavings', 'thorough': '(a) thorough grids; (b) 2-4 threads'},
+  'deadline': {'quick': 300, 'thorough': 2700},
+  'assumptions': A_COMMON + ["(a) sees only writes on driven paths", "SC interleavings at instruction granularity; TSO store buffering not explored (single aligned pointer store of a value every racing thread computes identically)"],
+ },
 }
